@@ -21,11 +21,15 @@ pub struct GenOpts {
     pub prelude_ops: bool,
     /// user type declarations
     pub max_types: usize,
+    /// emit every record pattern complete and in the field order of the record's type (the
+    /// random subset / order is still drawn, so both modes consume the PRNG identically and give
+    /// twin programs that differ in nothing else)
+    pub canonical_record_patterns: bool,
 }
 
 impl GenOpts {
     pub fn default_ordered() -> GenOpts {
-        GenOpts { max_depth: 5, node_budget: 70, fail_pct: 30, order_free: false, effects: false, prelude_ops: false, max_types: 2 }
+        GenOpts { max_depth: 5, node_budget: 70, fail_pct: 30, order_free: false, effects: false, prelude_ops: false, max_types: 2, canonical_record_patterns: false }
     }
 }
 
@@ -1043,6 +1047,19 @@ impl<'a> Gen<'a> {
                         irr &= i2;
                     }
                 }
+                if self.opts.canonical_record_patterns {
+                    let full: Vec<(String, Option<Pat>)> = fs
+                        .iter()
+                        .map(|(fname, _)| match ps.iter().find(|(n, _)| n == fname) {
+                            Some((_, Some(p))) => (fname.clone(), Some(p.clone())),
+                            Some((_, None)) => (fname.clone(), Some(Pat::Var(fname.clone()))),
+                            None => (fname.clone(), Some(Pat::Wild)),
+                        })
+                        .collect();
+                    ps = full;
+                } else if ps.len() < fs.len() || ps.iter().map(|p| &p.0).ne(fs.iter().map(|f| &f.0)) {
+                    self.feat("record-pattern-partial-or-reordered");
+                }
                 (Pat::Record(ps), bs, irr)
             }
             Ty::Option(t) if refutable => {
@@ -1364,7 +1381,7 @@ impl<'a> Gen<'a> {
     }
 
     pub fn into_program(self, body: Expr) -> Program {
-        Program { types: self.types, uses_shw: self.uses_shw, uses_do: self.uses_do, uses_fx: self.uses_fx, tuple_vars: self.tuple_vars, body: Some(body) }
+        Program { types: self.types, uses_shw: self.uses_shw, uses_do: self.uses_do, uses_fx: self.uses_fx, tuple_vars: self.tuple_vars, extra_preamble: String::new(), body: Some(body) }
     }
 }
 
